@@ -32,3 +32,96 @@ def trace_actions(res):
     if not acts:
         raise vf.Infra("empty counterexample")
     return acts
+
+
+def path_cover(edges, max_len=400):
+    """Same contract as vf.path_cover (every distinct edge occurs in at least one path that starts in the initial
+    state), but linear-ish: shortest-path tree from the initial state computed once, then each path = tree path to
+    a state that still has an uncovered out-edge + a greedy walk along uncovered edges.  Used for the large
+    (thorough) instances, where vf.path_cover's repeated breadth-first searches take too long."""
+    nodes, out, uniq = {}, {}, {}
+    for e in edges:
+        ks, kt = vf.canon(e["s"]), vf.canon(e["t"])
+        nodes.setdefault(ks, e["s"])
+        nodes.setdefault(kt, e["t"])
+        ek = (ks, vf.canon(e["a"]), kt)
+        if ek not in uniq:
+            uniq[ek] = e
+            out.setdefault(ks, []).append(ek)
+    has_in = set(k[2] for k in uniq if k[0] != k[2])
+    inits = [k for k in nodes if k not in has_in]
+    if len(inits) != 1:
+        raise vf.Infra("path_cover: %d initial states" % len(inits))
+    init = inits[0]
+    parent = {init: None}
+    order, q = [init], [init]
+    while q:
+        nq = []
+        for u in q:
+            for ek in out.get(u, []):
+                if ek[2] not in parent:
+                    parent[ek[2]] = ek
+                    nq.append(ek[2])
+                    order.append(ek[2])
+        q = nq
+    if len(parent) != len(nodes):
+        raise vf.Infra("path_cover: %d states unreachable from the initial state" % (len(nodes) - len(parent)))
+    nxt = {u: 0 for u in nodes}          # index of the first possibly uncovered out-edge
+    covered = set()
+
+    def uncovered(u):
+        lst = out.get(u, [])
+        i = nxt[u]
+        while i < len(lst) and lst[i] in covered:
+            i += 1
+        nxt[u] = i
+        return lst[i] if i < len(lst) else None
+    paths = []
+    for u in order:                      # shallow states first: short prefixes, long walks along uncovered edges
+        while uncovered(u) is not None:
+            pre, x = [], u
+            while parent[x] is not None:
+                pre.append(parent[x])
+                x = parent[x][0]
+            pre.reverse()
+            covered.update(pre)
+            steps, cur = pre, u
+            while len(steps) < max_len:
+                ek = uncovered(cur)
+                if ek is None:
+                    # bounded search below cur for a state that still has an uncovered out-edge
+                    seen, fr, hop, found = {cur: None}, [cur], 0, None
+                    while fr and found is None and len(seen) < 400:
+                        nf = []
+                        for x in fr:
+                            for e2 in out.get(x, []):
+                                v = e2[2]
+                                if v in seen:
+                                    continue
+                                seen[v] = e2
+                                if uncovered(v) is not None:
+                                    found = v
+                                    break
+                                nf.append(v)
+                            if found is not None:
+                                break
+                        fr = nf
+                    if found is None:
+                        break
+                    link, x = [], found
+                    while seen[x] is not None:
+                        link.append(seen[x])
+                        x = seen[x][0]
+                    link.reverse()
+                    if len(steps) + len(link) >= max_len:
+                        break
+                    steps.extend(link)
+                    cur = found
+                    continue
+                covered.add(ek)
+                steps.append(ek)
+                cur = ek[2]
+            paths.append({"init": nodes[init], "steps": [{"a": uniq[ek]["a"], "t": nodes[ek[2]]} for ek in steps]})
+    if len(covered) != len(uniq):
+        raise vf.Infra("path_cover: %d of %d edges not covered" % (len(uniq) - len(covered), len(uniq)))
+    return paths, len(nodes), len(uniq)
